@@ -43,7 +43,7 @@ OK ==
                                         /\ \A s \in Rs(Ev.seq) : s \in Rs(Ev.among)
                                         /\ Spread([s \in Rs(Ev.among) |-> Count(Ev.seq, s)], N, Len(Ev.among), IF Ev.explicit THEN 0 ELSE Ev.slack))
     [] OTHER -> TRUE
-TNext == /\ l <= Len(T.events) /\ OK /\ l' = l + 1 /\ tr' = tr
+TNext == /\ l <= Len(T.events) /\ (OK = TRUE) /\ l' = l + 1 /\ tr' = tr
          /\ srv' = IF Ev.k = "applied" THEN [s \in Stubs |-> Ev.servers[s + 1]] ELSE IF Ev.k = "deleted" THEN [s \in Stubs |-> "gone"] ELSE srv
          /\ known' = CASE Ev.k = "applied" -> [s \in Stubs |-> IF srv[s] = "gone" \/ Ev.servers[s + 1] = "gone" THEN (IF Ev.servers[s + 1] = "gone" THEN "unready" ELSE "unknown") ELSE known[s]]
                        [] Ev.k = "deleted" -> [s \in Stubs |-> "unready"]
